@@ -1,6 +1,6 @@
 (* C04: the geodetic-latitude loop of get_lonlatalt terminates, and fast.
-   For every position at least one normalising radius (6378.135 km) from the earth's centre and off the
-   polar axis, the iteration lat <- atan2(z + e2 N(lat) sin lat, r) is a contraction with factor below
+   For every position at least sqrt(0.993) normalising radii (6355.8 km: every point on or outside the WGS-84
+   ellipsoid, whose polar radius is 6356.75 km) from the earth's centre and off the polar axis, the iteration lat <- atan2(z + e2 N(lat) sin lat, r) is a contraction with factor below
    0.0069, the first step moves the latitude by less than 0.0069 rad, and therefore the exit test
    |lat - lat2| < 1e-10 succeeds at the fifth test at the latest.  The generated model unrolls six. *)
 From Coq Require Import Reals Lra Lia.
@@ -64,22 +64,23 @@ End Atan.
 Section Contraction.
   Variables r uz : R.
   Hypothesis Hr : 0 < r.
-  Hypothesis Hrho : 1 <= r * r + uz * uz.
+  Hypothesis Hrho : 993 / 1000 <= r * r + uz * uz.
 
   Let ynum (lat : R) : R := uz + Nc lat * wgs84_e2 * sin lat.
 
   Lemma ynum_near lat : Rabs (ynum lat - uz) <= delta_max.
   Proof. unfold ynum. replace (uz + Nc lat * wgs84_e2 * sin lat - uz) with (Nc lat * wgs84_e2 * sin lat) by ring. apply NcSin_e2_bound. Qed.
 
-  (* every point within delta_max of uz is still at least sqrt(0.9865) from the origin together with r *)
-  Lemma radius_lower c : Rabs (c - uz) <= delta_max -> 9865 / 10000 <= r * r + c * c.
+  (* every point within delta_max of uz is still at least sqrt(0.978) from the origin together with r *)
+  Lemma radius_lower c : Rabs (c - uz) <= delta_max -> 978 / 1000 <= r * r + c * c.
   Proof.
     intros Hc. apply Rabs_le_between in Hc. unfold delta_max in Hc.
     set (rho := sqrt (r * r + uz * uz)).
     assert (Hq : 0 <= r * r + uz * uz) by nra.
     assert (Hrr : rho * rho = r * r + uz * uz) by (apply sqrt_sqrt; exact Hq).
-    assert (Hrho1 : 1 <= rho).
-    { unfold rho. rewrite <- sqrt_1. apply sqrt_le_1_alt. exact Hrho. }
+    assert (Hrho1 : 996 / 1000 <= rho).
+    { unfold rho. replace (996 / 1000) with (sqrt ((996 / 1000) * (996 / 1000))) by (rewrite sqrt_square; lra).
+      apply sqrt_le_1_alt. lra. }
     assert (Huz : Rabs uz <= rho).
     { apply Rabs_le. split.
       - destruct (Rle_dec (- rho) uz) as [H|H]; [exact H|exfalso]. apply Rnot_le_lt in H. nra.
@@ -90,7 +91,9 @@ Section Contraction.
     { destruct (Rle_dec 0 uz) as [Hp|Hn].
       - destruct (Rle_dec (675 / 100000) uz) as [Hbig|Hsmall]; nra.
       - apply Rnot_le_lt in Hn. destruct (Rle_dec uz (- (675 / 100000))) as [Hbig|Hsmall]; nra. }
-    nra.
+    assert (Hm : 978 / 1000 <= rho * rho - 2 * rho * (675 / 100000)).
+    { assert (0 <= (rho - 996 / 1000) * (rho + 996 / 1000 - 2 * (675 / 100000))) by (apply Rmult_le_pos; lra). nra. }
+    lra.
   Qed.
 
   Lemma lat_step_eq lat2 : lat_step r uz lat2 = gat r (ynum lat2).
@@ -104,12 +107,12 @@ Section Contraction.
     destruct (Rle_dec y1 y2); lra.
   Qed.
 
-  Definition Lat : R := 1007 / 1000.
+  Definition Lat : R := 1012 / 1000.
 
   Lemma gat_lip_near y1 y2 : Rabs (y1 - uz) <= delta_max -> Rabs (y2 - uz) <= delta_max ->
     Rabs (gat r y2 - gat r y1) <= Lat * Rabs (y2 - y1).
   Proof.
-    intros H1 H2. apply (gat_lipschitz r Hr (9865 / 10000) Lat); unfold Lat; try lra.
+    intros H1 H2. apply (gat_lipschitz r Hr (978 / 1000) Lat); unfold Lat; try lra.
     intros c Hc. apply radius_lower. apply (between_near y1 y2); assumption.
   Qed.
 
@@ -155,13 +158,13 @@ Qed.
 Section Terminates.
   Variables x y z d : R.
   Hypothesis Hxy : 0 < x * x + y * y.
-  Hypothesis Habove : XKMPER * XKMPER <= x * x + y * y + z * z.
+  Hypothesis Habove : 993 / 1000 * (XKMPER * XKMPER) <= x * x + y * y + z * z.
 
   Let r := rr x y.
   Let uz := z / (1275627 / 200).
   Let Hr : 0 < r := rr_pos x y Hxy.
 
-  Lemma Hrho : 1 <= r * r + uz * uz.
+  Lemma Hrho : 993 / 1000 <= r * r + uz * uz.
   Proof.
     unfold r, uz. rewrite (rr_sq x y Hxy). unfold XKMPER in *.
     replace ((x * x + y * y) / (6378135 / 1000 * (6378135 / 1000)) + z / (1275627 / 200) * (z / (1275627 / 200)))
@@ -236,7 +239,7 @@ End Terminates.
 
 (* termination and correctness together: some exit among the first five is taken, and what it returns
    satisfies the round trip *)
-Theorem roundtrip_total x y z d : 0 < x * x + y * y -> XKMPER * XKMPER <= x * x + y * y + z * z ->
+Theorem roundtrip_total x y z d : 0 < x * x + y * y -> 993 / 1000 * (XKMPER * XKMPER) <= x * x + y * y + z * z ->
   (gen_lla_exit_p1 x y z d /\ roundtrip_ok x y z d (gen_lla_lat_p1 x y z d) (gen_lla_alt_p1 x y z d)) \/
   (gen_lla_exit_p2 x y z d /\ roundtrip_ok x y z d (gen_lla_lat_p2 x y z d) (gen_lla_alt_p2 x y z d)) \/
   (gen_lla_exit_p3 x y z d /\ roundtrip_ok x y z d (gen_lla_lat_p3 x y z d) (gen_lla_alt_p3 x y z d)) \/
@@ -253,7 +256,7 @@ Proof.
 Qed.
 
 (* the module-level conversion geoloc.get_lonlatalt runs the same loop *)
-Theorem module_loop_exits_by_5 x y z d : 0 < x * x + y * y -> XKMPER * XKMPER <= x * x + y * y + z * z ->
+Theorem module_loop_exits_by_5 x y z d : 0 < x * x + y * y -> 993 / 1000 * (XKMPER * XKMPER) <= x * x + y * y + z * z ->
   gen_geoloc_lla_exit_p1 x y z d \/ gen_geoloc_lla_exit_p2 x y z d \/ gen_geoloc_lla_exit_p3 x y z d \/
   gen_geoloc_lla_exit_p4 x y z d \/ gen_geoloc_lla_exit_p5 x y z d.
 Proof.
